@@ -28,6 +28,20 @@ CHECKS["C09"] = dict(
     technique="Lean 4 proof over translator-regenerated table (decide + omega calendar lemmas) + DuckDB correspondence",
 )
 
+CHECKS["C01"] = dict(
+    category="proof",
+    text="Lean 4 theorems: the plan produced by the model of SQLGenerator.generate for a single-model query (one CTE + aggregating SELECT) equals, for EVERY table content, "
+         "the reference semantics (filter, group by dimension values, aggregate each metric's expression over its group and own filters): fusion theorem body_fuse + "
+         "Spec.grouped_eq_flat + decidable coverage predicate evaluated per case; column naming theorem; slice theorem; proved counterexample for limit=0. "
+         "Model tied to /repo by structural (sqlglot normal form of compile() text == printed plan) and behavioural (DuckDB rows == Plan.eval) correspondence on generated triples; "
+         "real rows are compared with the Lean spec on every case; a broken correspondence triggers a directed search over adversarial tables.",
+    design_ref="DESIGN.md §4 C01",
+    note="Trusted: Lean kernel + standard axioms; hand-written Sql semantics (validated against DuckDB per case, not proved); genSingle transcription (tied by differential testing); "
+         "ungrouped branch, ORDER BY total-preorder property and metric-value (HAVING) filters are covered by correspondence + spec comparison only; data hypothesis PkOK (key expression non-NULL and injective). "
+         "Known findings F1/F20/F21 listed in known_findings.json.",
+    technique="Lean 4 proof (fusion of CTE projection into aggregation, all table contents) + structural/behavioural correspondence + spec oracle",
+)
+
 NOT_APPLICABLE = {}
 
 
